@@ -106,6 +106,7 @@ type Path struct {
 	blobs         []jsonBlob
 	trapStrings   []value
 	trapsExpected bool
+	sched         *sched
 }
 
 func (p *Path) replaying() bool { return len(p.trail) < len(p.prefix) }
